@@ -14,3 +14,8 @@ claim("C01", "exploration", "Hypothesis per-class argument generation against a 
       "independent table-driven ISO 14229-1 encoder, parsed back statically and dynamically (never RawRequest, same fields, same bytes); arguments pushed out of range "
       "must be refused; UDSClient service methods must write the reference encoding of the user's arguments. Exploration over an unbounded argument space.",
       "Trusts the reference encoder (vf/refcodec.py, written from the ISO layouts). Classes without a reference entry are reported as unmodelled in the evidence notes.")
+claim("C02", "exploration", "Exhaustive enumeration of short byte strings + Hypothesis valid/mutated responses + atheris coverage-guided fuzzing, re-encode round-trip and reference field decoder",
+      "Every byte string of length <= 3 for every response service id (thorough; <= 2 plus samples in quick), reference-encoded valid responses of every service, "
+      "their truncated/extended/bit-flipped/duplicated neighbours and an atheris campaign are fed to UDSResponse.parse_dynamic; whatever is accepted must re-encode to the "
+      "received bytes and expose the values at the ISO byte positions. Exploration beyond the exhaustively enumerated short strings.",
+      "Trusts the reference response decoder (vf/refcodec.py). Rejection (any exception) counts as clean refusal, as parse_pdu maps it to MalformedResponse.")
